@@ -211,6 +211,36 @@ def run_point(p: Dict[str, Any], verbose: bool = False) -> Tuple[Optional[Dict[s
             if iv["why"] == "expired" and iv["created"] + 0.75 * iv["ttl"] * 1000 > startup_end + delay:
                 if not asked_between(iv["type"], iv["created"] + 0.75 * iv["ttl"] * 1000 - delay, expiry):
                     problems.append(f"liveness: {iv['alias']} expired without any refresh query having been sent")
+        # (c2) an *isolated* record (no other record of this browser alive while it is being refreshed) has an exact
+        # schedule: the first refresh query within one delay of 75 %, every further one a tenth of the TTL after the
+        # previous one actually went out, as long as that instant precedes the expiry
+        for iv in intervals:
+            if iv["why"] != "expired":
+                continue
+            expiry = iv["created"] + iv["ttl"] * 1000
+            r75 = iv["created"] + 0.75 * iv["ttl"] * 1000
+            if r75 - delay <= startup_end + delay:
+                continue
+            lo_iso, hi_iso = r75 - 2 * delay, expiry + delay
+            if any(o is not iv and o["created"] <= hi_iso and o["end"] >= lo_iso for o in intervals):
+                continue
+            mine = [t for t, d in queries if r75 - delay - 1 <= t and any(q[1].lower() == iv["type"].lower() for q in d.msg.questions)]
+            if not mine:
+                continue  # reported by (c)
+            prev_q = mine[0]
+            for k in (1, 2):
+                expect = prev_q + 0.1 * iv["ttl"] * 1000
+                if expect >= expiry - 2:
+                    break
+                hit = [t for t in mine if abs(t - expect) <= 2]
+                if not hit:
+                    problems.append(
+                        f"refresh: {iv['alias']} (ttl {iv['ttl']} s, the only live record) was queried at "
+                        f"{prev_q - t_start:.0f} ms; the next refresh query was due at {expect - t_start:.0f} ms "
+                        f"({75 + 10 * k} %, expiry at {expiry - t_start:.0f} ms) and was not sent; queries: "
+                        f"{[round(t - t_start) for t in mine]}")
+                    break
+                prev_q = hit[0]
         # (d) every later query is explained by a live record's refresh schedule
         for t in later:
             ok = False
